@@ -121,6 +121,8 @@ def ob_convert(tmpl, with_stop, budget_s=300):
                 conds.append(symx.bterm(x.value == y.value))
         if "WARPS" in sm and list(tb.warps) != list(T.BeatValues.from_str(sm["WARPS"])):
             return False, ("warps",)
+        if list(ta.warps) != list(tb.warps):     # the library's own reader sees the same warps on both sides
+            return False, ("warps read from the source differ from those read from the result", len(list(ta.warps)), len(list(tb.warps)))
         return z3.And(*conds), ("convert", tmpl)
     return symx.explore(run, budget_s=budget_s)
 
@@ -254,7 +256,7 @@ def replay(data):
             if dict(oc) != wc or list(NoteData(oc)) != list(NoteData(ch)) or oc is ct:
                 bad = True
     ta, tb = TimingData(sm), TimingData(out)
-    if (list(ta.bpms), list(ta.stops), list(ta.delays), ta.offset) != (list(tb.bpms), list(tb.stops), list(tb.delays), tb.offset):
+    if (list(ta.bpms), list(ta.stops), list(ta.delays), list(ta.warps), ta.offset) != (list(tb.bpms), list(tb.stops), list(tb.delays), list(tb.warps), tb.offset):
         bad = True
     shared = []
     if st is not None and (out is st or out.charts is st.charts or any(a is b for a in out.charts for b in st.charts)):
